@@ -7,13 +7,16 @@ package loop
 import (
 	"fmt"
 	"runtime"
+	"strings"
 	"sync/atomic"
+	"syscall"
 	"testing"
 	"time"
 
 	"github.com/talostrading/sonic"
 	"pgregory.net/rapid"
 	"verif/internal/evid"
+	"verif/internal/sysx"
 	"verif/internal/vt"
 )
 
@@ -75,6 +78,16 @@ func TestC04_RefusedScheduleKeepsTheTimerAlive(t *testing.T) {
 			rt.Fatalf("INFRA: NewIO: %v", err)
 		}
 		defer ioc.Close()
+		// timers whose callback never ran (a failing case, replayed many times while rapid shrinks it) are released by
+		// descriptor number: the harness holds no reference to them on purpose
+		before := sysx.FdCensus()
+		defer func() {
+			for fd, target := range sysx.FdCensus() {
+				if _, was := before[fd]; !was && strings.Contains(target, "timerfd") {
+					_ = syscall.Close(fd)
+				}
+			}
+		}()
 		n := rapid.IntRange(1, 8).Draw(rt, "timers")
 		st := &c04Forgotten{fires: make([]int32, n)}
 		var desc []string
